@@ -219,12 +219,28 @@ func zzPrepare(script, varspec string) *zzEnv {
 	zzSortStrings(e.accounts)
 	zzSortStrings(e.assets)
 	bal := Balances{}
+	// "_omit=acc1,acc2": accounts the store knows nothing about (their balance is zero);
+	// "_omitasset=acc/ASSET,...": single entries the store does not hold
+	omit := map[string]bool{}
+	for _, a := range strings.Split(spec["_omit"], ",") {
+		if a != "" {
+			omit[a] = true
+		}
+	}
+	for _, a := range strings.Split(spec["_omitasset"], ",") {
+		if a != "" {
+			omit[a] = true
+		}
+	}
 	for _, acc := range e.accounts {
-		if acc == "world" {
+		if acc == "world" || omit[acc] {
 			continue
 		}
 		ab := AccountBalance{}
 		for _, as := range e.assets {
+			if omit[acc+"/"+as] {
+				continue
+			}
 			x := zzvrt.BigInt("bal_" + acc + "_" + as)
 			e.start[zzKey(acc, as)] = x
 			e.rem[zzKey(acc, as)] = new(big.Int).Set(x)
